@@ -81,6 +81,36 @@ theorem class_child_is_ref (defs : List (String × Elem)) (e : Elem) (body : JVa
     childRef defs e body = refTo (objName e.cls) := by
   simp [childRef, hc]
 
+/-- a child that equals one of the caller's definitions (and is not a class) is serialized as a reference to that
+    definition's name -/
+theorem definition_child_is_ref (defs : List (String × Elem)) (e : Elem) (body : JVal) (hc : isObjectClass e.cls = false)
+    (d : String × Elem) (hf : defs.find? (fun d => elemEq d.2 e) = some d) : childRef defs e body = refTo d.1 := by
+  simp [childRef, hc, hf]
+
+/-- **References to caller-supplied definitions resolve**: every name in the caller's `definitions` mapping is a key of
+    the document's `definitions`, whatever classes were added before -/
+theorem caller_definitions_present (defs : List (String × Elem)) (classDefs : List (String × JVal)) (d : String × Elem)
+    (hd : d ∈ defs) :
+    d.1 ∈ (defs.foldl (fun acc kv => dictSet acc kv.1 (serElem defs kv.2)) classDefs).map (·.1) := by
+  suffices hs : ∀ (l : List (String × Elem)) (acc : List (String × JVal)), (d ∈ l ∨ d.1 ∈ acc.map (·.1)) →
+      d.1 ∈ (l.foldl (fun acc kv => dictSet acc kv.1 (serElem defs kv.2)) acc).map (·.1) from hs defs classDefs (Or.inl hd)
+  intro l
+  induction l with
+  | nil =>
+    intro acc h
+    rcases h with h | h
+    · cases h
+    · exact h
+  | cons x xs ih =>
+    intro acc h
+    simp only [List.foldl_cons]
+    apply ih
+    rcases h with h | h
+    · rcases List.mem_cons.mp h with rfl | h
+      · exact Or.inr (dictSet_mem_keys _ _ _)
+      · exact Or.inl h
+    · exact Or.inr (dictSet_keeps_keys _ _ _ _ h)
+
 /-- `Nothing()` as the first element has no schema dictionary (finding C03-nothing-root) -/
 theorem counter_nothing_root :
     (match serializeJson [Elem.nothing] [] with
